@@ -39,7 +39,9 @@ def gen_history(rng):
               # the same keys and flags with other aliases
               [('mit', ['x mit'], False), ('GPL 2.0', ['gplv2'], False), ('classpath', [], True)],
               [('mit', [], False), ('GPL 2.0', [], False), ('classpath', ['GNU GPL v2'], True)],
-              [('gpl 2.0', [], False), ('gpl', ['gpl 2.0'], False)]]
+              [('gpl 2.0', [], False), ('gpl', ['gpl 2.0'], False)],
+              # operator words as names: refused whatever was created before in the process
+              [('or', [], False), ('mit', [], False)], [('gpl', ['with'], False)], [('mit', [], False), ('AND', [], False)]]
     ops.append(('new', rng.choice(tables[:1] + tables[5:9])))
     ninst = 1
     for _ in range(n):
@@ -96,8 +98,14 @@ def run_history(ops, le):
                 insts.append(make_licensing(T))
                 tables.append(T)
                 obs.append([0, [0, len(insts) - 1]])
+                accepted = True
             except Exception as ex:   # noqa
                 obs.append([0, enc_exception(ex)])
+                accepted = False
+            if has_keyword_name(T) and not err:
+                want = pristine_new(T)
+                if want != accepted:
+                    err = 'Licensing(%r) accepted=%r here, accepted=%r in a fresh interpreter' % (T, accepted, want)
         elif kind == 'parse':
             _, i, va, st, si, s = op
             mops.append([1, i, int(va), int(st), int(si), enc_str(s)])
@@ -219,6 +227,41 @@ L = make_licensing([(k, a, e) for k, a, e in T])
 got = outcome_of(lambda: L.parse(s, validate=va, strict=st, simple=si))
 print(json.dumps(got if got[0] != 0 else [0, None if got[1] is None else enc_expr(got[1])]))
 """
+
+
+def has_keyword_name(T):
+    return any(' '.join(n.lower().split()) in ('and', 'or', 'with') for k, als, _ in T for n in [k] + list(als))
+
+
+PRISTINE_NEW = r"""
+import json, sys
+sys.path.insert(0, %r)
+from core import make_licensing
+T = json.loads(sys.argv[1])
+try:
+    make_licensing([(k, a, e) for k, a, e in T])
+    print('true')
+except Exception:
+    print('false')
+"""
+
+
+_pristine_new_cache = {}
+
+
+def pristine_new(T):
+    """Whether a fresh interpreter accepts the table (nothing was created there before)."""
+    import json
+    import os
+    import subprocess
+    import sys
+    key = json.dumps(T)
+    if key not in _pristine_new_cache:
+        here = os.path.dirname(os.path.dirname(os.path.abspath(__file__)))
+        p = subprocess.run([sys.executable, '-c', PRISTINE_NEW % here, key], stdout=subprocess.PIPE, stderr=subprocess.PIPE,
+                           timeout=60, env=dict(os.environ))
+        _pristine_new_cache[key] = json.loads(p.stdout.decode())
+    return _pristine_new_cache[key]
 
 
 def pristine_parse(T, va, st, si, s):
